@@ -70,7 +70,9 @@ def _profile1(fn_node: ast.AST) -> List[List]:
         if not (normal or resumes_loop):
             # every path out of the handler raises: a conversion / re-raise, nothing is swallowed
             continue
-        rows.append([list(_type_names(h.ast.type)), "loop" if resumes_loop else "flow"])
+        # one row per caught type: `except (A, B)` and `except A: ... except B: ...` are the same thing
+        for t_ in _type_names(h.ast.type):
+            rows.append([[t_], "loop" if resumes_loop else "flow"])
     rows.sort()
     return rows
 
